@@ -62,6 +62,9 @@ class HarrOracle:
             return None if ok else "harness answered `bad-state` to `%s`" % op[:40]
         if line == "bad-op":
             return "harness rejected the operation line"
+        d = H.name_block_error(line)
+        if d:
+            return d
         mm = LINE.match(line)
         if not mm:
             return "unparsable result line: " + line[:160]
@@ -459,6 +462,21 @@ def harr_streams(check, prop):
                     "attach", "scribble", "check", "drop"]
         ops.append("end")
         sts.append(S("copies-and-ledger", ops))
+        # (field widths of the slot header) 129 keys sharing ONE home slot of a 300-slot table (slot.count passes
+        # 127 / 128); object keys of 1..20 bytes with a zero byte at every position: the copies handed out by
+        # getnext are kept with their reported sizes (exactly sized private duplicates, ASan)
+        uni = H.one_home_universe(300, 129, rng)
+        ops = ["new %d" % H.memsize(300)] + [put(k, b"v") for k in uni] + ["walk", "check", "drop"]
+        ops += [H.op_get(k) for k in uni[::6] + uni[126:]] + ["check", "drop"] + [H.op_rm(k) for k in uni] + ["walk", "check", "drop", "end"]
+        sts.append(S("one-home-129", ops))
+        ops = []
+        for ln in range(1, 21):
+            ops.append("new %d" % H.memsize(4))
+            for z in range(ln):
+                k = bytes((0 if i == z else 0x41 + i) for i in range(ln))
+                ops += [put(k, b"zero" * (1 + ln % 3)), "walk", "next 0", H.op_get(k), "check", H.op_rm(k), "check", "drop"]
+        ops.append("end")
+        sts.append(S("zero-byte-keys", ops))
         sts.append(S("putstrf-lengths", glue_ops(big)))
         ops = []
         for hno in range(25 if not big else 250):
